@@ -43,6 +43,35 @@ impl<T: ?Sized> RepeatableLockFuture<T> {
 }
 
 
+/// Scheduling points for the verification harness in /verif (compiled only with
+/// `--cfg fastcgi_server_verif`): a process-global callback invoked at named
+/// points, so that a test can run other operations (such as dropping the last
+/// task token) deterministically in the middle of `WaitGroupFuture::poll`.
+#[cfg(fastcgi_server_verif)]
+pub mod verif {
+    use std::sync::Mutex;
+
+    type Hook = Box<dyn FnMut(&str) + Send>;
+    static HOOK: Mutex<Option<Hook>> = Mutex::new(None);
+
+    /// Installs (or removes) the callback.
+    pub fn set_hook(hook: Option<Hook>) {
+        *HOOK.lock().unwrap_or_else(std::sync::PoisonError::into_inner) = hook;
+    }
+
+    pub(crate) fn sched(point: &str) {
+        // Take the hook out while it runs so that it may itself reach scheduling points
+        let taken = HOOK.lock().unwrap_or_else(std::sync::PoisonError::into_inner).take();
+        if let Some(mut h) = taken {
+            h(point);
+            let mut slot = HOOK.lock().unwrap_or_else(std::sync::PoisonError::into_inner);
+            if slot.is_none() {
+                *slot = Some(h);
+            }
+        }
+    }
+}
+
 // Adapted from https://github.com/laizy/waitgroup-rs
 #[derive(Default)]
 struct WaitGroupInner {
@@ -77,7 +106,11 @@ impl Future for WaitGroupFuture {
         match self.0.upgrade() {
             None => Poll::Ready(()),
             Some(wg) => {
+                #[cfg(fastcgi_server_verif)]
+                verif::sched("wg.upgraded");
                 wg.waker.register(cx.waker());
+                #[cfg(fastcgi_server_verif)]
+                verif::sched("wg.registered");
                 Poll::Pending
             },
         }
